@@ -43,7 +43,7 @@ CHECKS["C02"] = dict(
 CHECKS["C03"] = dict(
     category="exploration",
     technique="exhaustive input enumeration (IX) of the real FrameCodec against an independent reference codec",
-    text="All 65536 payload lengths; all 256 command bytes x 39 ids x 8 boundary lengths incl. encode/decode round trip; over-long payloads; every sequence of <=3 frames over a 9-frame alphabet (+ every proper prefix as incomplete tail) under every cut pattern (streams <=16 bytes quick, <=20 thorough) or every <=2/3-cut pattern and byte-at-a-time; every value of each header byte in 4 contexts; all 65536 length-field values against a short buffer; all 1-2 byte strings.",
+    text="All 65536 payload lengths; all 256 command bytes x 39 ids x 8 boundary lengths incl. encode/decode round trip; over-long payloads; every sequence of <=3 frames over a 9-frame alphabet (+ every proper prefix as incomplete tail) under every cut pattern (streams <=16 bytes quick, <=20 thorough) or every <=2/3-cut pattern and byte-at-a-time; every value of each header byte in 4 contexts; all 65536 length-field values against a short buffer; all 1-2 byte strings. Encodes appended to a kept buffer with refused (over-long) encodes in between must leave no stray bytes.",
     note="Trusted: the 40-line reference codec in harness/src/refmodel.rs; 2^32 ids are represented by 39 (the id is copied, never computed on).",
     design="DESIGN.md §6 C03",
 )
@@ -57,7 +57,7 @@ CHECKS["C04"] = dict(
 CHECKS["C05"] = dict(
     category="model_checking",
     technique="exhaustive scheme/payload enumeration against a reference shape acceptor plus deviation-bounded schedule exploration (DX) of concurrent writers",
-    text="Every scheme line of <=2 (thorough 3) entries over 12 entry forms x stop x draw policy x 10 payload sizes: the write lengths of every flush-delimited packet k >= 1 must be accepted by line k (reference acceptor, nondeterministic in the draw), packets >= stop / without a line / on the server side are one unpadded write; the authentication preamble for every line 0; DX with 2-3 concurrent writers and <= 2 (3) pre-emptions checks wire order against packet index. Plus every line of 3..4 (5) entries over a reduced alphabet {c,7,8,30,100-400} and the first-flush size cases; draw policies incl. 'alternate'.",
+    text="Every scheme line of <=2 (thorough 3) entries over 12 entry forms x stop x draw policy x 10 payload sizes: the write lengths of every flush-delimited packet k >= 1 must be accepted by line k (reference acceptor, nondeterministic in the draw), packets >= stop / without a line / on the server side are one unpadded write; the authentication preamble for every line 0; DX with 2-3 concurrent writers and <= 2 (3) pre-emptions checks wire order against packet index. Plus every line of 3..4 (5) entries over a reduced alphabet {c,7,8,30,100-400} and the first-flush size cases; draw policies incl. 'alternate'. 18 scheme spellings (stop beyond / below the number of lines, gaps, duplicate keys, blank lines). Client level: the preamble written by the real Client over the in-memory dialer seam (H12) and a mid-session push grid. The un-hooked random draw is covered by a labelled sampling supplement only (it cannot be enumerated); it does not decide the property.",
     note="Trusted: the acceptor (refmodel::accept_packet) written from the protocol's shaping rule; sizes > 65535 excluded (C04); a line 0 starting with a check mark may give 0 or its first range.",
     design="DESIGN.md §6 C05",
 )
@@ -72,7 +72,7 @@ CHECKS["C07"] = dict(
 CHECKS["C10"] = dict(
     category="model_checking",
     technique="deviation-bounded schedule exploration (DX) of the real Client::create_proxy_stream against a scripted server under virtual time, plus loopback cases through the real TcpProxyHandler (SEMI)",
-    text="Client half: 10 server behaviours (ok, error text, silence, duplicates, unknown id, session death by EOF/reset/Alert) x answer times {0, 1 s, 29.999 s, 30 s, 30.001 s, never} x {1 opener, 2 racing openers with every pair of behaviours} with <= 1 (2) scheduling deviations; the result must be the reference model's (first of answer / death / 30 s wins), carry the server's reason, and come at the right virtual time. Server half: peer versions {none,1,2,3} x {accepting, refusing, (thorough) black-holed} targets x {literal, name} x early data: exactly one SYNACK per SYN for v>=2, empty only when the target was really connected, none for older peers, no data frame before the SYNACK. Plus a black-holed uplink once the request is out (the peer stops reading, the transport accepts nothing): verdict or timeout must still be reported.",
+    text="Client half: 10 server behaviours (ok, error text, silence, duplicates, unknown id, session death by EOF/reset/Alert) x answer times {0, 1 s, 29.999 s, 30 s, 30.001 s, never} x {1 opener, 2 racing openers with every pair of behaviours} with <= 1 (2) scheduling deviations; the result must be the reference model's (first of answer / death / 30 s wins), carry the server's reason, and come at the right virtual time. Server half: peer versions {none,1,2,3} x {accepting, refusing, (thorough) black-holed} targets x {literal, name} x early data: exactly one SYNACK per SYN for v>=2, empty only when the target was really connected, none for older peers, no data frame before the SYNACK. Plus a black-holed uplink once the request is out (the peer stops reading, the transport accepts nothing): verdict or timeout must still be reported. UDP association opens (peer versions x 8 initial requests) and 9 spellings of the announced version (\"10\", \"02\", \"255\", \" 2\", ...) against a real server session.",
     note="Trusted: H4 accessor places an in-memory session in the real pool; scripted server; SEMI part runs one schedule per case in real time.",
     design="DESIGN.md §6 C10",
 )
@@ -103,7 +103,7 @@ CHECKS["C12"] = dict(
 CHECKS["C13"] = dict(
     category="model_checking",
     technique="explicit-state search (BX) over request histories driven through the real Client and Server over TLS on loopback (LX)",
-    text="Every history of length <= 6 (thorough 8) over {start request, finish request i} x min_idle in {0,1,2}: per request the identity of the session that served it and the number of new TLS connections seen by a counting relay in front of the real server; a request that starts while no other is active and a healthy session exists must be served by an existing session without dialling; open sessions <= peak concurrency + min_idle after every step. Plus a virtual-time family: every history of depth 6 (7) over {start, finish i, the server drops connection j, wait I/2, wait > T+I} on the real Client over the in-memory dialer seam (H12) for 3 (5) interval/timeout/min_idle configurations; LX also has bursts, session deaths and a short-timeout family with a wait.",
+    text="Every history of length <= 6 (thorough 8) over {start request, finish request i} x min_idle in {0,1,2}: per request the identity of the session that served it and the number of new TLS connections seen by a counting relay in front of the real server; a request that starts while no other is active and a healthy session exists must be served by an existing session without dialling; open sessions <= peak concurrency + min_idle after every step. Plus a virtual-time family: every history of depth 6 (7) over {start, finish i, the server drops connection j, wait I/2, wait > T+I} on the real Client over the in-memory dialer seam (H12) for 3 (5) interval/timeout/min_idle configurations; LX also has bursts, session deaths and a short-timeout family with a wait. DX: a burst of concurrent requests followed by sequential ones on the real Client (H12), <= 2 deviations.",
     note="Trusted: timers set to 1 h so only the history matters; loopback TLS; one schedule per history. Reuse is broken on the unchanged tree (open known finding keyed by the shortest failing history).",
     design="DESIGN.md §6 C13",
 )
@@ -111,7 +111,7 @@ CHECKS["C13"] = dict(
 CHECKS["C06"] = dict(
     category="exploration",
     technique="exhaustive input enumeration (IX) of authenticate_client over a byte-counting fragmenting reader, plus the same families as real TLS connections to the real Server (LX)",
-    text="Right hash; all 256 single-bit flips; single-byte substitutions (thorough: all 32x255); k-byte prefix/suffix matches; hashes of 12 related passwords; every declared padding length 0..=65535 followed by a sentinel frame (exactly 34+L bytes consumed); every truncation for padding {0,1,30,300}; every 1-cut (thorough: every 2-cut) fragmentation and byte-at-a-time. LX: ~260 (thorough ~420) TLS connections carrying the preamble followed by a valid Settings+SYN+destination+data: for a bad preamble zero application bytes come back, the server closes the connection and the target is never contacted; for a good one the data reaches the target. Plus incomplete preambles followed by 11..301 (3601) s of silence on the open connection and then frames (clock of a current-thread runtime jumped).",
+    text="Right hash; all 256 single-bit flips; single-byte substitutions (thorough: all 32x255); k-byte prefix/suffix matches; hashes of 12 related passwords; every declared padding length 0..=65535 followed by a sentinel frame (exactly 34+L bytes consumed); every truncation for padding {0,1,30,300}; every 1-cut (thorough: every 2-cut) fragmentation and byte-at-a-time. LX: ~260 (thorough ~420) TLS connections carrying the preamble followed by a valid Settings+SYN+destination+data: for a bad preamble zero application bytes come back, the server closes the connection and the target is never contacted; for a good one the data reaches the target. Plus incomplete preambles followed by 11..301 (3601) s of silence on the open connection and then frames (clock of a current-thread runtime jumped). hash_password against an independent SHA-256 for 16 password shapes (empty, spaces, multi-byte, 1 000 bytes).",
     note="Trusted: the deviation families stand for the other 2^256 preambles; timing side channels out of scope; loopback TLS.",
     design="DESIGN.md §6 C06",
 )
@@ -119,7 +119,7 @@ CHECKS["C06"] = dict(
 CHECKS["C16"] = dict(
     category="exploration",
     technique="exhaustive input enumeration (IX) of SOCKS5 greetings/requests and forced TCP fragmentations through the real front-end, Client, TLS, Server and handler on loopback (LX), against a reference SOCKS5 model",
-    text="Versions {0,4,5,6,255} x every method list of length <= 3 over {00,01,02,80,ff} (+ 255-long lists with 00 first / last / absent); every command byte 0..=255; reserved byte, request version, address types {0,1,2,3,4,5,255}, domain lengths {0,1,255}, unresolvable / invalid names, ::1, a refusing port; every truncation of the request; the canonical IPv4 and domain exchanges and 8 multi-method greetings under every single forced TCP cut and byte-at-a-time. Reference: 05 00 iff version 5 and 00 offered, otherwise refusal; a tunnel (echo through the requested target, nothing at any other target) iff CONNECT with a valid address to an accepting target, and 'succeeded' only then; failures are a non-zero reply or a close and end only that connection (a canonical request afterwards still succeeds). The canonical IPv4 / domain / IPv6 exchanges also under every single cut with 31 / 301 s of silence between the pieces (clock jump on a current-thread runtime).",
+    text="Versions {0,4,5,6,255} x every method list of length <= 3 over {00,01,02,80,ff} (+ 255-long lists with 00 first / last / absent); every command byte 0..=255; reserved byte, request version, address types {0,1,2,3,4,5,255}, domain lengths {0,1,255}, unresolvable / invalid names, ::1, a refusing port; every truncation of the request; the canonical IPv4 and domain exchanges and 8 multi-method greetings under every single forced TCP cut and byte-at-a-time. Reference: 05 00 iff version 5 and 00 offered, otherwise refusal; a tunnel (echo through the requested target, nothing at any other target) iff CONNECT with a valid address to an accepting target, and 'succeeded' only then; failures are a non-zero reply or a close and end only that connection (a canonical request afterwards still succeeds). The canonical IPv4 / domain / IPv6 exchanges also under every single cut with 31 / 301 s of silence between the pieces (clock jump on a current-thread runtime). Replies are parsed by their address type: exactly one reply per request, well-formed for IPv4 / IPv6 / odd domain names; failing CONNECTs with early data; early data cut around the hand-over to the tunnel.",
     note="Trusted: harness echo targets on 127.0.0.1 / 127.0.0.2 / ::1 and a reserved refusing port; fragmentation forced by waiting for the front-end's receive queue to drain (/proc/net/tcp); real time, timing-independent oracle (waits exceed every documented timeout).",
     design="DESIGN.md §6 C16",
 )
@@ -135,7 +135,7 @@ CHECKS["C17"] = dict(
 CHECKS["C15"] = dict(
     category="exploration",
     technique="exhaustive size and fragmentation enumeration (IX) through the real UDP relay loops over real loopback sockets in lock-step (SEMI)",
-    text="Datagram sizes (quick: boundary sizes 1..3, 253..258, 1471..1473, 8190..8194, 65505..65507 and a stride; thorough: every size 1..=65507) in both directions through the real server-side handler and the real client-side relay loop, position-coded contents, one received datagram per sent one, nothing extra; every 1-cut and 2-cut split and byte-at-a-time delivery of 2- and 3-datagram length-prefixed streams including cuts inside the initial request; end to end through Client::create_udp_proxy, the real sessions and TcpProxyHandler for an IPv4 and an IPv6 target, with a decoy socket that must stay silent. Two local applications alternating on one association; two-piece deliveries with up to 301 (3601) s of silence between the pieces in both directions (clock jump).",
+    text="Datagram sizes (quick: boundary sizes 1..3, 253..258, 1471..1473, 8190..8194, 65505..65507 and a stride; thorough: every size 1..=65507) in both directions through the real server-side handler and the real client-side relay loop, position-coded contents, one received datagram per sent one, nothing extra; every 1-cut and 2-cut split and byte-at-a-time delivery of 2- and 3-datagram length-prefixed streams including cuts inside the initial request; end to end through Client::create_udp_proxy, the real sessions and TcpProxyHandler for an IPv4 and an IPv6 target, with a decoy socket that must stay silent. Two local applications alternating on one association; two-piece deliveries with up to 301 (3601) s of silence between the pieces in both directions (clock jump). Bursts in both directions, two concurrent associations (replies must return on the association that sent the request), and server-side target shapes IPv4 / IPv4-mapped / ::1 / domain.",
     note="Trusted: loopback UDP does not lose datagrams in lock-step; hand-built Stream objects carry the tunnel's byte stream in chosen pieces; H7 wrapper exposes the private client loop unchanged.",
     design="DESIGN.md §6 C15",
 )
@@ -151,7 +151,7 @@ CHECKS["C18"] = dict(
 CHECKS["C19"] = dict(
     category="model_checking",
     technique="explicit-state search (BX) over process histories, each replayed in a fresh child process on real client sessions (virtual pipes) and through the real Client against a scripted TLS server",
-    text="Every history of length <= 3 (thorough 4) over {touch the built-in default first, session whose server pushes scheme B / C / an unparsable scheme followed by shaped writes, client request on a new session against a scripted TLS server using B / C}: after a parsable push the session's next packets must have exactly the pushed scheme's write sizes (B and C prescribe one 200- / 300-byte write per packet), sessions created afterwards must start with the adopted scheme and announce its md5 so that the server does not push again, an unparsable push changes nothing and the session keeps working; 180 (thorough ~900) child processes. The alphabet also has a client constructed with a custom scheme, the built-in default text as a pushed scheme, and a retyped scheme (same lines, other text, other md5); plus an exhaustive per-session grid (stop of the announced scheme x stop of the pushed scheme x packets sent before the push).",
+    text="Every history of length <= 3 (thorough 4) over {touch the built-in default first, session whose server pushes scheme B / C / an unparsable scheme followed by shaped writes, client request on a new session against a scripted TLS server using B / C}: after a parsable push the session's next packets must have exactly the pushed scheme's write sizes (B and C prescribe one 200- / 300-byte write per packet), sessions created afterwards must start with the adopted scheme and announce its md5 so that the server does not push again, an unparsable push changes nothing and the session keeps working; 180 (thorough ~900) child processes. The alphabet also has a client constructed with a custom scheme, the built-in default text as a pushed scheme, and a retyped scheme (same lines, other text, other md5); plus an exhaustive per-session grid (stop of the announced scheme x stop of the pushed scheme x packets sent before the push). Real-server operations (a real server Session deciding whether to push, with its real text) and 24 spellings of the settings frame read by a real server session (it must push iff the announced md5 differs). A new session must announce the scheme it really uses (preamble padding recorded).",
     note="Trusted: the child mimics bin/client.rs (client constructed once with the process default); the scripted TLS server reads the announced padding-md5 from the Settings frame; write sizes are observed on virtual pipes.",
     design="DESIGN.md §6 C19",
 )
@@ -159,7 +159,7 @@ CHECKS["C19"] = dict(
 CHECKS["C20"] = dict(
     category="exploration",
     technique="exhaustive hostile-input enumeration (IX) on real sessions under virtual time with a process-wide panic hook, spin guard and watchdog; parser sweeps; malformed input on the real front-ends (LX)",
-    text="Both roles: single frames over all 256 command bytes x ids {0,1,2,0xffffffff} x 9 payloads (valid / garbage / invalid-UTF-8 settings, 65535 bytes, hostile scheme texts with huge, negative and overflowing numbers), also as the very first frame, and all pairs over a reduced alphabet (quick 88^2, thorough 480^2); every bit flip in the first 160 bytes (thorough: all), every truncation, frame duplication, adjacent swap and length-field corruption {0, len-1, len+1, 65535} of a recorded conversation in each direction; the destination parser and the UDP initial-request / datagram parsers on all 256 type bytes x lengths {0,1,255} x truncations; ~400 HTTP header blocks with multi-byte characters at every offset of a header line and degenerate targets/methods; malformed byte strings on the SOCKS5 and HTTP listeners followed by a well-formed request on a sibling connection. Oracle: no panic on any thread, no spin or real-time wedge, and afterwards a well-formed exchange works or the session is closed with its transport shut down. LX also: connections stalling with incomplete input (held open) on both front-end listeners and on the server's TLS listener while a well-formed sibling request arrives.",
+    text="Both roles: single frames over all 256 command bytes x ids {0,1,2,0xffffffff} x 9 payloads (valid / garbage / invalid-UTF-8 settings, 65535 bytes, hostile scheme texts with huge, negative and overflowing numbers), also as the very first frame, and all pairs over a reduced alphabet (quick 88^2, thorough 480^2); every bit flip in the first 160 bytes (thorough: all), every truncation, frame duplication, adjacent swap and length-field corruption {0, len-1, len+1, 65535} of a recorded conversation in each direction; the destination parser and the UDP initial-request / datagram parsers on all 256 type bytes x lengths {0,1,255} x truncations; ~400 HTTP header blocks with multi-byte characters at every offset of a header line and degenerate targets/methods; malformed byte strings on the SOCKS5 and HTTP listeners followed by a well-formed request on a sibling connection. Oracle: no panic on any thread, no spin or real-time wedge, and afterwards a well-formed exchange works or the session is closed with its transport shut down. LX also: connections stalling with incomplete input (held open) on both front-end listeners and on the server's TLS listener while a well-formed sibling request arrives. Long multi-byte texts, every valid text with one byte corrupted at every offset, headers that never end (must not be buffered beyond the limit), and a global-state poisoning probe (a later well-formed exchange in the same process must still work).",
     note="Trusted: hostile input is zero-padded to the next frame boundary of the reference parser before the follow-up exchange (a corrupted length legitimately swallows what follows); 1 h virtual horizon; panic hook is process-wide.",
     design="DESIGN.md §6 C20",
 )
